@@ -55,6 +55,7 @@ fn place(c: &mut Cursor) -> Place {
         doc: f & 128 != 0,
         container: if bits & 1 != 0 && bits & 2 != 0 { f % 5 } else { 0 },
         glue: f & 64 != 0,
+        interp: f & 32 != 0 && bits & 4 != 0,
     }
 }
 
